@@ -121,6 +121,9 @@ class Stmt(Node):
     # no __slots__: line / end_line / arm_lines ... are set by render()
     line = None
     end_line = None
+    arm_lines = None
+    else_line = None
+    case_lines = None
 
 
 class Assign(Stmt):
@@ -630,7 +633,7 @@ def _stmt(s, out, ind=''):
         if s.else_body is not None:
             s.else_line = out.add(ind + 'ELSE')
             _block(s.else_body, out, ind + '  ')
-        out.add(ind + 'END IF', s)
+        out.add(ind + 'END IF', s, 'end_line')
         return
     if isinstance(s, For):
         t = f'FOR {s.var} = {expr(s.a)} TO {expr(s.b)}'
@@ -638,12 +641,12 @@ def _stmt(s, out, ind=''):
             t += ' STEP ' + expr(s.step)
         out.add(ind + t, s)
         _block(s.body, out, ind + '  ')
-        out.add(ind + 'NEXT' + (' ' + s.var if s.next_var else ''), s)
+        out.add(ind + 'NEXT' + (' ' + s.var if s.next_var else ''), s, 'end_line')
         return
     if isinstance(s, While):
         out.add(ind + 'WHILE ' + expr(s.cond), s)
         _block(s.body, out, ind + '  ')
-        out.add(ind + 'WEND', s)
+        out.add(ind + 'WEND', s, 'end_line')
         return
     if isinstance(s, Do):
         head = 'DO'
@@ -658,7 +661,7 @@ def _stmt(s, out, ind=''):
             tail += ' UNTIL ' + expr(s.cond)
         out.add(ind + head, s)
         _block(s.body, out, ind + '  ')
-        out.add(ind + tail, s)
+        out.add(ind + tail, s, 'end_line')
         return
     if isinstance(s, Select):
         out.add(ind + 'SELECT CASE ' + expr(s.e), s)
@@ -677,7 +680,7 @@ def _stmt(s, out, ind=''):
         if s.else_body is not None:
             out.add(ind + 'CASE ELSE')
             _block(s.else_body, out, ind + '  ')
-        out.add(ind + 'END SELECT', s)
+        out.add(ind + 'END SELECT', s, 'end_line')
         return
     if isinstance(s, TypeDef):
         out.add(ind + 'TYPE ' + s.name, s)
@@ -693,7 +696,7 @@ def _stmt(s, out, ind=''):
             head += ' STATIC'
         out.add(head, s)
         _block(s.body, out, '  ')
-        out.add('END ' + s.kind, s)
+        out.add('END ' + s.kind, s, 'end_line')
         return
     raise TypeError(f'cannot render statement {s!r}')
 
